@@ -179,6 +179,21 @@ ALL = ['C%02d' % i for i in range(1, 20)]
 PENDING_REASON = 'check not yet built in this session (planned, see DESIGN.md section 7); not claimed until it runs clean'
 
 
+# additions of round 8: parts that several checks share (appended to the level text of each)
+CROSS = (' A cross-API call-order pass puts, per event code, every public function that takes one before the functions of this check (every ordered pair from a '
+         'restored state; each answer against the same call made first).')
+CONC = (' A concurrency pass runs two threads inside these functions under the interleaving explorer of C16 (all schedules at source-line granularity with at most '
+        '2 pre-emptions), each answer against the same call made alone.')
+for _pid in ('C01', 'C05', 'C07', 'C09', 'C10', 'C11', 'C12', 'C14', 'C15', 'C17'):
+    CHECKS[_pid]['text'] += CROSS
+for _pid in ('C02', 'C06', 'C07', 'C10', 'C12', 'C13', 'C17'):
+    CHECKS[_pid]['text'] += CONC
+CHECKS['C08']['text'] += (' Beyond the BFS bound: ALL jumping orders of two real result cards and of every synthetic competition over a reduced card set (explored as a '
+                          'DAG of positions through the real object, states merged by complete internal snapshot), including jump-off rounds; and every order of the '
+                          '15-athlete Rio final within 1 (thorough: 2) deviations of round-robin.')
+CHECKS['C16']['text'] = CHECKS['C16']['text'].replace('at most 1-2 pre-emptions', 'at most 1-2 pre-emptions (3 for the shortest scenarios in the thorough tier)')
+
+
 def main():
     man = dict(
         version=1,
